@@ -189,6 +189,8 @@ def _r3(model, res, c, g):
             pv = Obj(ClassV(None, ast.ClassDef(name='YaccProduction', bases=[], keywords=[], body=[], decorator_list=[])), {})
             lst = ListV(items)
             pv.attrs['slice'] = ListV([SliceSym(p.name)] + [SliceSym(s) for s in p.syms])
+            for i_, ss_ in enumerate(pv.attrs['slice'].items):
+                ss_.holder, ss_.position = lst, i_      # p.slice[i].value is p[i]
             pv.attrs['<items>'] = lst
             interp.extern['hx:p.getitem'] = None
             gobj = Obj(ClassV(g.gm, g.gcls), {})
@@ -240,6 +242,8 @@ def _install_plist_support():
             return base.slice_
         if isinstance(base, SliceSym) and attr == 'type':
             return Const(base.value)
+        if isinstance(base, SliceSym) and attr == 'value' and getattr(base, 'holder', None) is not None:
+            return base.holder.items[base.position]
         return orig(interp, base, attr)
     absmodels.value_attr = value_attr
 
